@@ -72,6 +72,40 @@ Proof.
 Qed.
 Print Assumptions detached_never_called.
 
+(* The event identifies what changed: every call made for a notified change of (x, f) carries (x, f). *)
+Theorem event_identifies_change :
+  forall st o x f, inv st -> op_hyp st o = true -> notified st o = Some (x, f) ->
+    forall c, In c (ob_calls (snd (step st o))) -> call_slot c = (x, f).
+Proof.
+  intros st o x f I Hy N c Hc. pose proof (step_spec st o I Hy) as S. unfold step_ok in S.
+  destruct (step st o) as [st' ob]. rewrite N in S. destruct S as [_ [_ [_ [_ Sl]]]]. apply Sl. exact Hc.
+Qed.
+Print Assumptions event_identifies_change.
+
+(* A mutation of a container reached through a notifying items link delivers its event to the key. *)
+Theorem container_event_delivered :
+  forall st c f i n vs k g, inv st -> op_hyp st (Splice c f i n vs) = true ->
+    spliced_out (st_heap st c f) i n ++ vs <> [] ->
+    In (k, g) (st_regs st) -> matched (st_traits st) (st_heap st) g (snd k) c f = true ->
+    In (k, c, f, spliced_out (st_heap st c f) i n, vs) (ob_calls (snd (step st (Splice c f i n vs)))).
+Proof.
+  intros st c f i n vs k g I Hy NE Hr Hm.
+  pose proof (step_spec st (Splice c f i n vs) I Hy) as S. unfold step_ok in S. cbn [notified] in S.
+  cbn [step] in *. destruct (spliced_out (st_heap st c f) i n ++ vs) eqn:Q; [congruence|].
+  destruct (change st c f (splice (st_heap st c f) i n vs) (spliced_out (st_heap st c f) i n) vs false true)
+    as [st' ob] eqn:E.
+  destruct S as [_ [_ [_ [Sp _]]]]. cbn [snd].
+  assert (In k (map call_key (ob_calls ob))) as IK by (apply Sp; exists g; tauto).
+  apply in_map_iff in IK. destruct IK as [cl [Ek Icl]].
+  unfold change in E.
+  destruct (notify_loop _ _ _ _ _ _ _ _) as [[H1 ks1] ok1] in E.
+  destruct (notify_loop _ _ _ _ _ _ _ _) as [[H2 ks2] ok2] in E.
+  inversion E; subst ob. cbn [ob_calls] in *.
+  apply in_map_iff in Icl. destruct Icl as [k' [<- Ik']]. cbn [call_key] in Ek. subst k'.
+  apply in_map_iff. exists k. split; [reflexivity|exact Ik'].
+Qed.
+Print Assumptions container_event_delivered.
+
 Theorem no_mutation_raises :
   forall ops st, inv st -> hyps st ops = true ->
     Forall (fun p : op * obs => ob_out (snd p) = Ok) (run st ops).
